@@ -712,6 +712,8 @@ class Env:
         F = b.facts
         for _ in range(10):
             alld = b.defs.get(l, [])
+            if len(alld) > 1 and re.match(r"^(std|core)::(result::Result|option::Option)<", b.lty(l)) and all(d[2] != "proj" for d in alld):
+                return ("local", l)      # assembled in this body (e.g. the return place of an inlined helper)
             if len(alld) != 1 or alld[0][2] == "proj":
                 return None
             d = alld[0]
@@ -721,6 +723,8 @@ class Env:
                 tgt = f.get("res") or f.get("fn") or ""
                 if f.get("loc") and tgt in F.bodies:
                     return F.bodies[tgt]
+                if f.get("loc") and tgt in getattr(F, "hidden", {}):
+                    return F.hidden[tgt]
                 short = tgt.rsplit("::", 1)[-1]
                 if short in ("branch", "unwrap", "expect") and t["args"]:
                     p = op_place(t["args"][0])
@@ -742,6 +746,39 @@ class Env:
             l = p["l"]
         return None
 
+    def local_result_len_lower(self, r):
+        """for a Result/Option local assigned in several places of this body: proved lower bound on the length of the
+        payload of every `Ok(x)` / `Some(x)` assignment (0 = nothing proved); Err/None and `?` residuals do not count."""
+        b = self.b
+        key = ("rl", r)
+        if key in self._reach_cache:
+            return self._reach_cache[key]
+        self._reach_cache[key] = 0
+        k = None
+        for d in b.defs.get(r, []):
+            if d[2] == "call":
+                if "FromResidual" in (d[3]["f"].get("fn") or ""):
+                    continue
+                k = 0
+                break
+            rv = d[3]
+            if rv["k"] == "agg" and rv["kind"].get("a") == "adt" and rv["kind"].get("var") in ("Err", "None"):
+                continue
+            if not (rv["k"] == "agg" and rv["kind"].get("a") == "adt" and rv["kind"].get("var") in ("Ok", "Some")):
+                k = 0
+                break
+            pos = (d[0], d[1])
+            a = self.op_term(rv["ops"][0], pos)
+            ln = Term("len(%s)" % strip_ref(repr(a)), 0, len_reads(a.reads), "usize")
+            S, _, ok = knowledge(self, d[0], d[1], [ln])
+            lo = S.lower(ln) if ok(ln) else 0
+            if lo == -INF or lo < 0:
+                lo = 0
+            k = lo if k is None else min(k, lo)
+        k = int(k or 0)
+        self._reach_cache[key] = k
+        return k
+
     def callee_len_facts(self, locals_):
         """postconditions of crate-local callees: a local that holds the successful result of `g(..)` has at least the
         length that every successful return of g is proved to have (summary computed by the same solver in g)."""
@@ -753,7 +790,7 @@ class Env:
             g = self.origin_call(l)
             if g is None:
                 continue
-            k = ret_len_lower(g)
+            k = self.local_result_len_lower(g[1]) if isinstance(g, tuple) else ret_len_lower(g)
             if k <= 0:
                 continue
             d = b.defs[l][0]
